@@ -382,6 +382,8 @@ def run(ctx):
     wsi = repo.func(WEB + '.__init__')
     ck.expect(any(norm_text(s) == 'self._strong_redirects = self._processor.fetch_params.strong_redirects' for s in walk_no_nested(wsi.node) if isinstance(s, ast.Assign)),
               'C02-D3', wsi.qual, 'strong_redirects taken from the fetch parameters', 'strong_redirects wiring changed', wsi.loc())
+    from .common import option_wiring_lint
+    option_wiring_lint(ctx, 'C02-D3', ['WebProcessorFetchParams'], only=('strong_redirects',))
 
     # ------------------------------------------------------------------ D4
     pl = repo.func(WEB + '._process_loop')
